@@ -178,10 +178,17 @@ func (o *orderedPeers) Suitable(n uint32) ([]*core.Endpoint, error) {
 			return l, nil
 		}
 	}
-	// Deterministic default: ascending id.
+	// The real selection decides how many peers take part and whether the request can be served at all; which ones (it
+	// ranges over a map) is fixed here for determinism: ascending id. A selection of another size than requested is
+	// passed on as it is.
+	real, err := o.Service.Suitable(n)
+	if err != nil || uint64(len(real)) != uint64(n) {
+		sort.Slice(real, func(i, j int) bool { return real[i].ID < real[j].ID })
+		return real, err
+	}
 	all := o.Service.All()
 	if uint64(n) > uint64(len(all)) {
-		return o.Service.Suitable(n)
+		return real, nil
 	}
 	var ids []uint64
 	for id := range all {
